@@ -175,6 +175,7 @@ class CreateReleaseId(FnContract):
     otherwise short-version for ga, short-version-type else, plus '@'+<base product id> iff bp_short is truthy."""
     MODULE, FUNC = "common", "create_release_id"
     PARAMS = ("short", "version", "type", "bp_short", "bp_version", "bp_type")
+    SAMPLE_POOL = ["f", "fedora", "rhel", "a-b", "x1", "23", "7.1", "Rawhide", "1", "ga", "updates", "eus", "fast", "", None, "F", "a_b", ".x", "rawhide"]
 
     def requires(self, a):
         bp = a["bp_short"]
